@@ -110,7 +110,8 @@ META = {
                     'mixed storage types of b and x0 (the Lean model works on values; that solve() converts b and x0 to the common '
                     'type without changing their values is observed against the NumPy recursion and against the same values '
                     'stored in the common type)'],
-    'partial': [],
+    'partial': ['generated_cycle_visits_grid_5x3x3 / generated_cycle_trace_grid_5x3x3 / generated_cycle_spec_visits_grid_5x3x3 (E57): the order of the smoother / coarse-solver calls (= C03.traceM, the order of the hand-written model) and the whole event trace (= the hand-written textbook data flow ExtPy3Cyc.specCyc) of the __solve GENERATED from the working tree are proved on a FINITE grid only (2..6 levels x cycle V / W / F x cycles_per_level 1..3, by kernel evaluation on the mock hierarchy hierWorld L); there is no theorem for all depths (no induction on the number of levels, not even for the V-cycle), none for the AMLI branch, and the mock world has no scripted results; deeper hierarchies, AMLI, raising callees and explicit level lists are covered by the exact comparison of the generated definition with the real method only (part_pylogic3)'],
+    'trusted_extra': ["harness/py2lean3_cycle.py (E57: py2lean2's translation + the recursion self.__solve(...) as a call of the generated definition itself with an explicit fuel, under the ASSUMPTION that the attribute self.__solve is this very method; tuple subscripts x[k, :]; augmented assignment to an item), lean/PyamgV/Model/ExtPy3CycRt.lean (getItemT) on top of harness/py2lean2.py + lean/PyamgV/Model/ExtPy2Rt.lean / ExtPyRt.lean, and harness/extpy3_cycle.py + harness/extpy2.py (the mock objects; the mock self answers __solve with the REAL method bound to it): exercised on every run by the exact comparison (result, exception class, whole trace) of the generated multilevel_cycle with the REAL MultilevelSolver.__solve on mock hierarchies (op ext_py3c_call)"],
     'assumptions': ['the smoother closures and the coarse solver are probed on unit vectors and checked per instance to be affine '
                     'maps x + Q (b - A x) resp. linear maps (1e-8); their internals are C09 / outside this property',
                     'the coarse solve of the reference is inv(levels[-1].A) recomputed densely (pinv for the pinv solver on an exactly '
@@ -2902,7 +2903,19 @@ def run_specs(ctx, specs, lean_dim, m_dim, nconf=4, batch=None):
     return used
 
 
+def part_pylogic3(ctx):
+    """extension E57: MultilevelSolver.__solve (the V / W / F / AMLI cycle recursion) as GENERATED from the working tree
+    (harness/py2lean3_cycle.py, Generated/PyLogic3_cycle.lean) vs the real method executed against mock hierarchies
+    (harness/extpy3_cycle.py): result, exception class and the whole trace are compared exactly"""
+    import extpy3_cycle
+
+    def lean(c, lines):
+        return c.lean(lines)
+    extpy3_cycle.part_cycle(ctx, ctx.scale(250, 5000), lean)
+
+
 def run(ctx):
+    part_pylogic3(ctx)
     rng = ctx.np_rng
     n_small = ctx.scale(48, 1600)
     n_big = ctx.scale(6, 250)
